@@ -10,10 +10,12 @@ pub mod c04;
 pub mod c05;
 pub mod c06;
 pub mod c07;
+pub mod c08;
 pub mod c09;
 pub mod c10;
 pub mod c11;
 pub mod c12;
+pub mod c13;
 pub mod c14;
 pub mod c15;
 pub mod c16;
@@ -38,10 +40,12 @@ pub fn all() -> Vec<PropDef> {
         PropDef { id: "C05", level: "exploration", run: c05::run, replay: c05::replay },
         PropDef { id: "C06", level: "exploration", run: c06::run, replay: c06::replay },
         PropDef { id: "C07", level: "exploration", run: c07::run, replay: c07::replay },
+        PropDef { id: "C08", level: "exploration", run: c08::run, replay: c08::replay },
         PropDef { id: "C09", level: "exploration", run: c09::run, replay: c09::replay },
         PropDef { id: "C10", level: "exploration", run: c10::run, replay: c10::replay },
         PropDef { id: "C11", level: "exploration", run: c11::run, replay: c11::replay },
         PropDef { id: "C12", level: "exploration", run: c12::run, replay: c12::replay },
+        PropDef { id: "C13", level: "exploration", run: c13::run, replay: c13::replay },
         PropDef { id: "C14", level: "exploration", run: c14::run, replay: c14::replay },
         PropDef { id: "C15", level: "exploration", run: c15::run, replay: c15::replay },
         PropDef { id: "C16", level: "exploration", run: c16::run, replay: c16::replay },
